@@ -104,6 +104,14 @@ CLAIMS = {
             "parameters across their ranges, 39 reply tapes (two lines each) and a failure at each port operation, and every port call is validated by TLC.",
             "Trusted: TLC, the instrumented port (an empty receive side times out).",
             "DESIGN.md section 5 C16", TECH_MGV),
+    "C17": ("model_checking",
+            "On the model, Controller o SerialBus o wire o Odk o Bus is compared call by call with Controller o Bus (same success, outcome and sign "
+            "projections; built from the Frame, Message, VirtualSign, Controller and Serial modules). On the code, the real Sign drives real virtual "
+            "signs directly and through SerialSignBus + Odk over an in-process duplex port pair (deterministic pumping); TLC checks twin equality per "
+            "controller call and the bridge rule (forwarded once, written back iff the bus replied, undecodable line = communication error without "
+            "touching the bus) per Odk::process_message call, including raw unknown and invalid lines injected at the bridge.",
+            "Trusted: TLC, the duplex port pair. Small sign types only (real 30 ms pacing per chunk).",
+            "DESIGN.md section 5 C17", TECH_MGV),
     "C18": ("other",
             "Decided by measurement against a timed TLA+ trace specification (Trace_Pacing): monotonic time stamps at the port's write/read boundaries; "
             "the two lower bounds (30 ms after a data chunk before the next write; 100 ms after an in-progress report before returning, also when the "
